@@ -18,7 +18,7 @@ func setmetatable(t *rt.Thread, c *rt.GoCont) (rt.Cont, error) {
 		return nil, errors.New("cannot set metatable")
 	}
 	if c.Arg(1).IsNil() {
-		tbl.SetMetatable(nil)
+		t.SetRawMetatable(c.Arg(0), nil)
 	} else if meta, err := c.TableArg(1); err == nil {
 		t.SetRawMetatable(c.Arg(0), meta)
 	} else {
